@@ -374,15 +374,24 @@ theorem parseAttributeBlock_spec (atoms : List (Int × Atom)) (bl : List BlockLi
       rw [he] at h1 h2 h3
       simp only [Option.bind_none] at h1 h2 h3
       simp only [← h1, ← h2, ← h3, nonZero]
-      trace_state
-      sorry
+      rfl
     | some e =>
       rw [he] at h1 h2 h3
       simp only [Option.bind_some, Extra.get] at h1 h2 h3
       simp only [h1, h2, h3]
   unfold parseAttributeBlock
   rw [scan_spec atoms tail bl lines hlines [] false, ok_bind]
-  sorry
+  cases hf : hasChgOrRad bl
+  · refine congrArg Except.ok ?_
+    apply List.map_congr_left
+    rintro ⟨k, a⟩ _
+    exact hfield k a
+  · refine congrArg Except.ok ?_
+    show List.map _ (List.map _ atoms) = _
+    rw [List.map_map]
+    apply List.map_congr_left
+    rintro ⟨k, a⟩ _
+    exact hfield k _
 
 /-- the charge-code table as the reader applies it -/
 theorem chargeCode_table : chargeCode 0 = (none, none) ∧ chargeCode 1 = (some 3, none) ∧ chargeCode 2 = (some 2, none) ∧
